@@ -7,7 +7,8 @@ THEOREMS = [("Sylvia.Thm.C07", "C07." + t) for t in
              "success_uncovered_passes_through", "error_uncovered_passes_through", "table_entries_compatible"]] + \
            [("Sylvia.Lemmas.Reply", "Sylvia.Reply.replyTable_ok"), ("Sylvia.Thm.Obl.Complete.C07", "Obl.extraction_complete_C07"), ("Sylvia.Thm.Obl.T.replyOn_documented", "Obl.replyOn_documented")]
 
-THEOREMS = THEOREMS + [("Sylvia.Thm.ReplyOnFn", "ReplyOnFn.excludes_eq"), ("Sylvia.Thm.ReplyOnFn", "ReplyOnFn.excludes_symmetric"), ("Sylvia.Thm.CtxFn", "CtxFn.reply_from")]
+THEOREMS = THEOREMS + [("Sylvia.Thm.ReplyOnFn", "ReplyOnFn.excludes_eq"), ("Sylvia.Thm.ReplyOnFn", "ReplyOnFn.excludes_symmetric"), ("Sylvia.Thm.CtxFn", "CtxFn.reply_from"),
+                       ("Sylvia.Thm.ReplyNewFn", "ReplyNewFn.new_spec"), ("Sylvia.Thm.ReplyNewFn", "ReplyNewFn.merge_spec")]
 
 
 def run(ctx):
@@ -21,6 +22,11 @@ def run(ctx):
     ctx.cov["function_translator_replyon"] = {"source": "sylvia-derive/src/parser/attributes/msg.rs::ReplyOn::excludes", "problems": ro_problems}
     if ro_problems:
         ctx.obligation_failed("function-translator(replyon)", "; ".join(ro_problems)[:1500])
+    # ... ReplyData::{new, merge}: the table entry a reply method opens / joins (the model's newEntry / mergeEntry)
+    rn_problems = rs2lean.regenerate("replynew")
+    ctx.cov["function_translator_replynew"] = {"source": "sylvia-derive/src/contract/communication/reply.rs::ReplyData::{new, merge}", "problems": rn_problems}
+    if rn_problems:
+        ctx.obligation_failed("function-translator(replynew)", "; ".join(rn_problems)[:1500])
     # ... and ReplyCtx with its From<tuple> conversion (gas used, events, message responses) -> Extracted/CtxFns.lean
     ctx_problems = rs2lean.regenerate("ctx")
     ctx.cov["function_translator_ctx"] = {"source": "sylvia/src/ctx.rs", "problems": ctx_problems}
